@@ -69,6 +69,10 @@ type rootNodeLoc struct {
 
 	reclaimMark node // Address is used as a sentinel.
 
+	// Set by rootCAS once a newer version has replaced this one; a version
+	// that was never superseded shares its nodes with no newer version.
+	superseded bool
+
 	// We might own a reference count on another Collection/rootNodeLoc.
 	// When our reference drops to 0 and we're free'd, then also release
 	// our reference count on the next guy in the chain.
@@ -93,7 +97,10 @@ func (t *Collection) closeCollection() { // Just "close" is a keyword.
 	r := t.root
 	t.root = nil
 	t.rootLock.Unlock()
-	t.reclaimMarkUpdate(r.root, nil, &r.reclaimMark)
+	// The version may still be shared (the collection a snapshot was taken
+	// from, the collection installed by SetCollection on the same name, an
+	// in-flight reader), so only drop our reference here: whoever drops the
+	// last reference of a never-superseded version reclaims its whole tree.
 	if r != nil {
 		t.rootDecRef(r)
 	}
@@ -775,6 +782,9 @@ func (t *Collection) rootCAS(prev, next *rootNodeLoc) bool {
 		return false // TODO: Callers need to release resources.
 	}
 	t.root = next
+	if prev != nil {
+		prev.superseded = true
+	}
 
 	if prev != nil && prev.refs > 2 {
 		// Since the prev is in-use, hook up its chain to disallow
@@ -813,6 +823,10 @@ func (t *Collection) rootDecRefUnlocked(r *rootNodeLoc) {
 	}
 	if r.chainedCollection != nil && r.chainedRootNodeLoc != nil {
 		r.chainedCollection.rootDecRefUnlocked(r.chainedRootNodeLoc)
+	}
+	if !r.superseded {
+		// Every handle on this version was closed and nothing replaced it.
+		t.reclaimMarkAllUnlocked(r.root, &r.reclaimMark)
 	}
 	t.reclaimNodesUnlocked(r.root.Node(), &r.reclaimLater, &r.reclaimMark)
 	for i := 0; i < len(r.reclaimLater); i++ {
